@@ -15,7 +15,7 @@ import (
 // Both go through Mapper.Read/Write only; no machine cycle elapses between a write and the reads.
 
 // machine states the sweeps start from
-var busStates = []string{"power-on", "lcd-off", "lcd-off+apu-off", "after-busy-rom", "mbc1-ram-enabled", "ch3-playing", "dma-in-flight", "dacs-on-idle", "dac3-on-fresh", "lcd-off+all-requested", "keys-held", "mbc2-ram-enabled", "mbc3-ram-enabled", "mbc5-ram-enabled", "lcd-on-registers-set"}
+var busStates = []string{"power-on", "lcd-off", "lcd-off+apu-off", "after-busy-rom", "mbc1-ram-enabled", "ch3-playing", "dma-in-flight", "dacs-on-idle", "dac3-on-fresh", "lcd-off+all-requested", "keys-held", "mbc2-ram-enabled", "mbc3-ram-enabled", "mbc5-ram-enabled", "lcd-on-registers-set", "lcd-off+oam-source", "sweep-armed", "mbc2-ram-disabled"}
 
 func busMachine(state string, repo string) (*machine.M, ref.CartKind) {
 	kind := ref.KNone
@@ -42,6 +42,14 @@ func busMachine(state string, repo string) (*machine.M, ref.CartKind) {
 		m = machine.New(machine.Image(0x06, 2, 0, 8), machine.Opts{})
 		kind = ref.KMBC2
 		m.Map.Write(0x0000, 0x0a)
+	case "mbc2-ram-disabled":
+		// cartridge RAM switched off again after use: stores into its window are then stores into nothing
+		m = machine.New(machine.Image(0x06, 2, 0, 8), machine.Opts{})
+		kind = ref.KMBC2
+		m.Map.Write(0x0000, 0x0a)
+		m.Map.Write(0xa123, 0x05)
+		m.Map.Write(0x0000, 0x00)
+		m.Map.Write(0x2100, 0x03)
 	case "mbc3-ram-enabled":
 		m = machine.New(machine.Image(0x13, 2, 3, 8), machine.Opts{})
 		kind = ref.KMBC3
@@ -70,6 +78,19 @@ func busMachine(state string, repo string) (*machine.M, ref.CartKind) {
 		m.Map.Write(0xff40, m.Map.Read(0xff40)&0x7f)
 	}
 	switch state {
+	case "lcd-off+oam-source":
+		// LCD off with the mode-2 STAT source selected, LYC away from line 0, nothing requested
+		m.Map.Write(0xff45, 0x50)
+		m.Map.Write(0xff41, 0x20)
+		m.Map.Write(0xff0f, 0x00)
+	case "sweep-armed":
+		// channel 1 playing with its sweep unit armed (period 1, shift 1, adding) at a frequency close to the top
+		for _, w := range [][2]uint16{{0xff26, 0x80}, {0xff10, 0x11}, {0xff12, 0xf0}, {0xff13, 0x00}, {0xff14, 0x85}} {
+			m.Map.Write(w[0], uint8(w[1]))
+		}
+		for i := 0; i < 40; i++ {
+			m.Hardware()
+		}
 	case "lcd-off+apu-off":
 		m.Map.Write(0xff26, 0x00)
 	case "ch3-playing":
@@ -488,7 +509,7 @@ func init() {
 		explore.Product(c.R, "read-back", explore.PartOpt{Bound: "no time elapses between write and read", Domain: "13 machine states x {plain, io, unusable}"},
 			func(yield func(c06Case) bool) {
 				for _, s := range busStates {
-					if s == "keys-held" || s == "lcd-on-registers-set" {
+					if s == "keys-held" || s == "lcd-on-registers-set" || s == "lcd-off+oam-source" || s == "sweep-armed" || s == "mbc2-ram-disabled" {
 						continue // JOYP's input nibble under held keys is C22's; the states exist for C07
 					}
 					for _, p := range []string{"plain", "io", "unusable"} {
@@ -498,6 +519,7 @@ func init() {
 					}
 				}
 			}, func() string { return c.Repo }, c06Check)
+		c06KeepPart(c)
 	})
 	register("C07", "model_checking", func(c *Ctx) {
 		if c.R != nil {
@@ -505,7 +527,7 @@ func init() {
 			c.R.Assumptions = []string{"quick: every address FE00-FFFF, every 0x100-aligned address +-1 elsewhere and every region boundary +-1; thorough: all 65,536 addresses"}
 		}
 		vals := []uint8{0x00, 0xff, 0x55, 0xaa, 0x01, 0x80, 0x0a, 0xe5}
-		explore.Product(c.R, "write-effect-sets", explore.PartOpt{Bound: "single write, full-space diff", Domain: "15 machine states (one with the LCD on mid-frame and every LCD register at a value of its own), four of them with a cartridge controller and its RAM enabled (MBC1, MBC2, MBC3, MBC5) (FF10-FF3F: every write from the state itself); plus FF10-FF3F x 8 values each written from a busy APU (all channels playing, length counters at 1, second half of a frame-sequencer period)"},
+		explore.Product(c.R, "write-effect-sets", explore.PartOpt{Bound: "single write, full-space diff", Domain: "18 machine states (one with the LCD on mid-frame and every LCD register at a value of its own; LCD off with the mode-2 STAT source selected; channel 1 playing with its sweep armed; MBC2 with its RAM switched off again), five of them with a cartridge controller and its RAM enabled (MBC1, MBC2, MBC3, MBC5) (FF10-FF3F: every write from the state itself); plus FF10-FF3F x 8 values each written from a busy APU (all channels playing, length counters at 1, second half of a frame-sequencer period)"},
 			func(yield func(c07Case) bool) {
 				// sound registers from a busy APU, every write from the state itself
 				for lo := 0xff10; lo < 0xff40; lo += 4 {
@@ -518,7 +540,7 @@ func init() {
 					for lo := 0xfe00; lo < 0x10000; lo += 0x10 {
 						// the sound registers and wave RAM: every write from the state itself (a sweep over NR52 or NR30
 						// would otherwise destroy the state for the addresses after it)
-						fresh := (lo >= 0xff10 && lo < 0xff40 && s != "after-busy-rom") || ((s == "lcd-off+all-requested" || s == "keys-held" || s == "lcd-on-registers-set") && lo >= 0xff00 && lo < 0xff80)
+						fresh := (lo >= 0xff10 && lo < 0xff40 && s != "after-busy-rom") || ((s == "lcd-off+all-requested" || s == "keys-held" || s == "lcd-on-registers-set" || s == "lcd-off+oam-source") && lo >= 0xff00 && lo < 0xff80)
 						if !yield(c07Case{State: s, Lo: lo, Hi: lo + 0x0f, Vals: vals, Fresh: fresh}) {
 							return
 						}
